@@ -195,6 +195,48 @@ T = {
  "C20-2": dict(
     change="x/tradeshield/keeper/pending_spot_order.go RemovePendingSpotOrder: decrements the counter that is also the next order id (same change as C20-1)",
     needs="as C20-1", caught_by="C20.cancel_returns_all (stored history C20-order-id-reuse and hist mode)", history="caught at first run"),
+ "C01-3": dict(
+    change="x/amm/keeper/msg_server_feed_multiple_external_liquidity.go GetExternalLiquidityRatio: starts from the ACCOUNTED balances, which the caller writes back as the pool's reserves",
+    needs="an oracle pool with an open perpetual position (accounted balance differs from the reserve) and a price feeder's MsgFeedMultipleExternalLiquidity for that pool",
+    caught_by="C01.reserve_eq_held, C01.liquidity_eq_sum in hist mode (op amm.feedExternalLiquidity)",
+    history="MISSED at first (the feeder's external-liquidity message was not in the grammar); added; caught since"),
+ "C02-3": dict(
+    change="x/commitment/types/commitments.go DeductFromCommitted: the committed entry is dropped when the WITHDRAWABLE remainder is zero instead of when the remaining amount is zero",
+    needs="an account holding both unlocked and still-locked shares of an oracle pool exits exactly the unlocked part (a tie in the lock-up check): the locked shares vanish from its commitments",
+    caught_by="C02.shares_agree (stored history C02-exit-exactly-unlocked; grammar: exit of exactly committed minus locked)",
+    history="MISSED at first (no exit of exactly the withdrawable amount); boundary added to the grammar and a history found and stored (lib/find_record.py); caught since"),
+ "C03-3": dict(
+    change="x/amm/types/swap_in_amt_given_out.go: the non-oracle exact-out price is computed on the per-block SNAPSHOT instead of the live pool",
+    needs="non-oracle pool, exact-out swap that is not the first operation on the pool in its block", caught_by="C03.in_ge_exact, C03.in_ge_exact_one_unit, C03.weighted_within_1e8 in mode c03 (snapshot argument that differs from the pool)",
+    history="MISSED at first (mode c03 passed the pool itself as its snapshot for non-oracle pools); perturbed snapshots added (nothing may depend on them); caught since"),
+ "C04-3": dict(
+    change="x/amm/keeper/route_exact_amount_out.go: the sender's TokenInMaxAmount is applied on the LAST hop instead of the first",
+    needs="multi-hop exact-out whose real cost exceeds the limit after another tx of the same block moved the first-hop pool", caught_by="C04.exact_out_debit, C04.only_stated_denoms in mode c04", history="caught at first run"),
+ "C05-3": dict(
+    change="x/amm/types/solve_constant_function_invariant.go feeRatio: inner subtraction reversed (the swapped part of a single-asset join is credited the fee instead of charged it)",
+    needs="non-oracle pool with a positive swap fee and a single-asset join", caught_by="C05.single_join_within_1e8 in mode c05", history="caught at first run"),
+ "C06-3": dict(
+    change="x/tier/keeper/portfolio.go uses UpdateInterestAndGetDebt (books interest into TotalValue) + x/stablestake Unbond runs its hooks BEFORE writing its stale params copy",
+    needs="an account that both lends and holds a leveraged-LP position unbonds as its first portfolio-triggering action of a new day, with interest pending on its position",
+    caught_by="C06.vault_equation (stored history C06-unbond-by-borrower-new-day; fault run with long block gaps focused on stablestake)",
+    history="MISSED at first (days rarely change in plain histories); fault run added to C06 and a history found and stored; caught since"),
+ "C07-3": dict(
+    change="x/stablestake/keeper/params.go GetRedemptionRate: returns the params snapshot whenever the computed rate is lower",
+    needs="the vault emptied and refilled within one epoch after interest accrued (snapshot above the restarted rate); or rounding dust below the default snapshot of 1",
+    caught_by="correspondence of mode c07 (the real rate differs from the Lean model's) - reported with no failing input",
+    history="caught at first run as a broken correspondence without a failing input: the epoch snapshot is written by the begin-blocker, which mode c07 does not run (the model computes interest from a fixed rate); left as it is"),
+ "C08-3": dict(
+    change="x/leveragelp/keeper/position_close.go ForceCloseLong: 'fully closed' decided by ratio == 1 (an 18-digit decimal) instead of remaining shares == 0",
+    needs="a partial close leaving a few shares of a position of more than 2e18 shares: the position is destroyed, the dust stays in the pool total", caught_by="C08.pool_eq_sum, C08.position_eq_committed in hist mode (closes leaving 1..10 shares)",
+    history="MISSED at first (partial closes were fractions of at least 1e-6); dust-remainder closes added; caught since"),
+ "C09-3": dict(
+    change="x/perpetual/keeper/msg_server_close_positions.go: perpetual pool cached per message, invalidated only after a SUCCESSFUL entry (the cached value shares slices with what a failed entry mutated)",
+    needs="one close-positions message with an entry that fails after touching the pool totals followed by a successful entry of the same pool", caught_by="C09.aggregates_eq_sum (stored history C09-closepositions-failed-entry-then-success)",
+    history="MISSED at first by the quick run; a fault + whale history found and stored; caught since"),
+ "C10-3": dict(
+    change="x/leveragelp/keeper/position_open.go ProcessOpenLong: the unhealthy-position rejection applies only when the open borrows something",
+    needs="an existing leveraged-LP position at or below the safety factor that was not swept yet, re-opened by its owner with leverage 1 or dust", caught_by="C10.open_healthy in mode c10 (leveragelp sweep variants)",
+    history="MISSED at first (with the default sweep an unhealthy leveraged-LP position never survives to its owner's next tx); sweep variants per world added; caught since"),
 }
 
 root = os.path.join(os.path.dirname(os.path.dirname(os.path.abspath(__file__))), "seeded")
